@@ -136,6 +136,7 @@ def main(argv):
     shard = int(shard)
     nshards = int(nshards)
     result = {"shard": shard, "hashseed": os.environ.get("PYTHONHASHSEED"), "clauses": {}, "error": None}
+    os.environ["PV_TIER"] = tier
     try:
         from .core import derive_seed
         mod = load_property(pid)
